@@ -263,11 +263,12 @@ PROPS['C09']['proved'] += (' Also: Unary / Binary::evaluate (scalar arms), Binar
 PROPS['C19'] = {
     'units': [{'template': 'capi.rs', 'rlimit': 30, 'items': [r'^biscuit-capi::lib::']}],
     'proved': 'for key_pair_new, key_pair_public, key_pair_serialize, key_pair_deserialize, public_key_deserialize, biscuit_serialized_size, biscuit_serialize, biscuit_sealed_size, '
-              'biscuit_serialize_sealed, biscuit_block_count: every copy_from_slice into a caller buffer has equal source and destination lengths, the number of bytes written is the number announced by the '
+              'biscuit_serialize_sealed, biscuit_block_count, biscuit_block_context and the builder / token / authorizer entry points (biscuit_builder_*, block_builder_*, authorizer_builder_*, biscuit_from, biscuit_append_block, biscuit_authorizer, '
+              'authorizer_authorize, authorizer_print, biscuit_print, biscuit_print_block_source - 37 extern functions in all): every copy_from_slice into a caller buffer has equal source and destination lengths, the number of bytes written is the number announced by the '
               'matching size query (sealed: the size of the sealed token), seeds of length != 32 are refused, a null handle returns through the error channel without being dereferenced, and no unwrap / index / '
               'arithmetic side condition can fail. Builder handles (BiscuitBuilder, BlockBuilder, AuthorizerBuilder): the handle holds its Rust builder after EVERY call of set_context, set_root_key_id, add_fact, add_rule, add_check, add_policy - '
               'including calls that refuse their argument - so the unwrap / expect of the next call cannot fail; biscuit_builder, create_block and authorizer_builder return filled handles; authorizer_builder_build[_unauthenticated] return NULL for a NULL builder.',
-    'not_covered': ['"returns the same result as the Rust operation" for authorization outcomes and error details (needs the engine)', 'the builder / authorizer entry points working on C strings (CStr, to_str: str reasoning)',
+    'not_covered': ['"returns the same result as the Rust operation" for authorization outcomes and error details (needs the engine)', 'what the C strings contain (CStr::from_ptr / to_str are assumed total on valid NUL-terminated buffers)', 'string_free and the *_free functions (ownership transfer)',
                     'validity of the caller-supplied pointers themselves (the property assumes valid handles and buffers of the reported size; rewrite R9)'],
     'assumptions': ['Rust API contracts in specs/capi.rs: PrivateKey::to_bytes is 32 bytes, PublicKey::to_bytes is 32 (ed25519) / 33 (secp256r1) bytes, Biscuit::to_vec().len() == serialized_size() for the same token '
                     '(each proved or assumed in unit chain); seal() returns a token whose size is unrelated to the unsealed one', 'update_last_error returns', 'rewrite R9: from_raw_parts[_mut](p, n) is a slice of length n'],
